@@ -334,7 +334,7 @@ def tlc_schedules(msgs_name, wd, variant="snapshot-copy"):
     return r
 
 
-def model_check_impl(wd):
+def model_check_impl(wd, quick=True):
     """the design-level result: deadlock freedom, liveness under fairness, C11's ordering invariants"""
     out = {}
     for name in ("MsgsNRNR", "MsgsNNN", "MsgsNRRN"):
@@ -345,12 +345,25 @@ def model_check_impl(wd):
             r = common.run_tlc("MCServerImpl.tla", cfg, os.path.join(wd, "mc-%s-%s" % (name, split)), workers=4, timeout=900, coverage=True)
             common.tlc_must(r, "ServerImpl model check %s SplitEnd=%s" % (name, split))
             out[name + ("/split-end" if split == "TRUE" else "")] = {"distinct": r.distinct, "generated": r.generated}
+    # the same under an open client: every message sequence up to the bound, sent at any time (ServerImplOpen.tla)
+    n = 6 if quick else 7
+    cfg = ('SPECIFICATION OSpec\nCONSTANTS\n  Msgs <- TraceMsgs%d\n  NFiles = 2\n  Variant = "snapshot-copy"\n  SplitEnd = TRUE\nVIEW oview\n'
+           'INVARIANT VersionsMonotone\nINVARIANT SnapshotsAreCurrent\nINVARIANT NoLockInversion\nINVARIANT ConvergesWhenIdle\nPROPERTY AllHandled\n' % n)
+    r = common.run_tlc("MCServerImplOpen.tla", cfg, os.path.join(wd, "mc-open"), workers=6, timeout=3000)
+    common.tlc_must(r, "ServerImplOpen model check")
+    out["open-client/%d-messages" % n] = {"distinct": r.distinct, "generated": r.generated}
     # witness: the pre-fix variant deadlocks in the model
     cfg = 'SPECIFICATION Spec\nCONSTANTS\n  Msgs <- MsgsNRNR\n  NFiles = 2\n  Variant = "shared-lock"\n  SplitEnd = FALSE\nVIEW view\n'
     r = common.run_tlc("MCServerImpl.tla", cfg, os.path.join(wd, "mc-shared"), workers=4, timeout=900)
     if "Deadlock reached" not in r.out:
         raise ToolError("ServerImpl(shared-lock) should deadlock in the model: the model lost its ability to express the defect")
     out["shared-lock-variant-deadlocks"] = True
+    # second witness: a task that gives up its snapshot before it publishes breaks the ordering invariant in the model
+    cfg = 'SPECIFICATION Spec\nCONSTANTS\n  Msgs <- MsgsNNN\n  NFiles = 2\n  Variant = "early-release"\n  SplitEnd = FALSE\nVIEW view\nINVARIANT VersionsMonotone\n'
+    r = common.run_tlc("MCServerImpl.tla", cfg, os.path.join(wd, "mc-early"), workers=4, timeout=900)
+    if "Invariant VersionsMonotone is violated" not in r.out:
+        raise ToolError("ServerImpl(early-release) should violate VersionsMonotone in the model")
+    out["early-release-variant-breaks-version-order"] = True
     return out
 
 
@@ -358,7 +371,7 @@ def check_c08(tier, seed):
     v = Verdict("C08", tier, seed)
     wd = common.workdir("C08-%s" % tier)
     quick = tier == "quick"
-    mc = model_check_impl(wd)
+    mc = model_check_impl(wd, quick)
     rng = random.Random("%d/c08" % seed)
     items, meta = [], []
     states = sum(x["distinct"] for x in mc.values() if isinstance(x, dict))
